@@ -223,6 +223,32 @@ def check_shutdown_wakeup(ctx: Ctx, oid: str) -> None:
                 if n.ast is not None and any(callee_attr(c) == "set" and nexpr(repo, ft, c.func.value, alt) == READY
                                              for c in calls_in_node(n) if isinstance(c.func, ast.Attribute)):
                     woke = stored_none and True
+            if not woke:
+                # the idleness test may be carried by a local or live in an extracted helper: decide on value terms -- every path that
+                # does not exclude "has a primary thread whose wake-up event is clear" posts None and then sets the event
+                from ..terms import NONE as _Nw, evaluator as _evw, implies as _impw
+                Rw = ("sym", READY)
+                evw = _evw(repo, ft)
+                woke, nidle = True, 0
+                for (pw, stw) in evw.run(limit=4000):
+                    if pw[-1][0] != evw.cfg.exit.id:
+                        continue
+                    firsts = [e for e in stw.events if e.kind == "call" and e.attr == "is_set" and e.recv == Rw]
+                    if not firsts:
+                        continue
+                    idle = ("and", ("not", ("cmp", "is", Rw, _Nw)), ("not", firsts[0].result))
+                    try:
+                        excluded = _impw(stw.cond, ("not", idle)) is True
+                    except Exception:
+                        excluded = False
+                    if excluded:
+                        continue
+                    nidle += 1
+                    k_none = [i for i, e in enumerate(stw.events) if e.kind == "assign" and e.target == MAILBOX and e.value == _Nw]
+                    k_set = [i for i, e in enumerate(stw.events) if e.kind == "call" and e.attr == "set" and e.recv == Rw]
+                    if not (k_none and k_set and k_none[0] < k_set[-1]):
+                        woke = False
+                woke = woke and nidle >= 1
             ob.site(ft, ft.node, "idle primary: mailbox=None then ready.set()", ok=woke)
             if not woke:
                 ob.violation(ft, ft.node, "with an idle primary thread trigger_shutdown does not post None and wake it: integrate_as_primary_thread never returns",
@@ -512,6 +538,26 @@ def check(ctx: Ctx) -> None:
                         f.assume(t.ast, lab == "true")
                 if f.get("self._running") is False:
                     note_guard = True
+        if not note_guard:
+            # the emptiness test may be carried by a local (`became_idle = len(self._running) == 0`): decide it on value terms
+            from ..terms import cmp_term as _cmpg, const as _cg, evaluator as _evg, tv as _tvg
+            RUNT = ("sym", "self._running")
+            evg = _evg(repo, fp)
+            seen_set, ok_all = False, True
+            heads_g = {n.id for n in evg.cfg.nodes if n.kind in ("test", "for") and isinstance(n.owner, (ast.While, ast.For))}
+            for (_pg, stg) in evg.run(back_stops=heads_g, limit=20000):
+                sets_ = [e for e in stg.events if e.kind == "call" and e.attr == "set"]
+                if not sets_:
+                    continue
+                seen_set = True
+                conds = stg.cond[:sets_[0].ncond]
+                known = dict(conds)
+                empty = _tvg(RUNT, known) is False or any(
+                    v is True and t[0] == "cmp" and t[1] == "eq" and {t[2], t[3]} == {("pcall", "len", (RUNT,), ()), _cg(0)} for (t, v) in conds)
+                if not empty:
+                    ok_all = False
+                    break
+            note_guard = seen_set and ok_all
         if not note_guard:
             ob.violation(fp, st[0], "waitall events are set although tasks are still running (waitall would return True early)")
         loops = [n for n in repo.own_nodes(fp) if isinstance(n, (ast.While, ast.For)) and ("_waitall_events" in unparse(n) or "_waitall_events" in xtext(repo, fp, n.iter if isinstance(n, ast.For) else n.test))]
